@@ -1,4 +1,5 @@
 import Anndb.Model.Routing
+import Anndb.Props.C14
 import Anndb.Generated
 /-!
 # C10 — Item routing is a stable, total function of the id and the partition count
@@ -67,6 +68,42 @@ theorem group_covers (ids : List (List UInt8)) (n : UInt64) (hn : n ≠ 0) (id :
 /-- **stable**: the owner depends on nothing but the id bytes and the count (it is a function) -/
 theorem owner_stable (id id' : List UInt8) (n n' : UInt64) (h1 : id = id') (h2 : n = n') :
     owner id n = owner id' n' := by rw [h1, h2]
+
+/-! ## every restart computes the same owner
+
+Routing is positional: the owner of `id` in a dataset is the partition at index
+`owner id (number of partitions)` of the dataset's partition list. The list is part of the
+catalogue, so "every node and every restart computes the same owner" needs the list to come back
+in the same order from the catalogue log and from a catalogue snapshot. -/
+open Anndb.Catalogue in
+/-- the partition (its identity, not its index) that owns `id` in dataset `d` -/
+def ownerPart (d : Catalogue.Dataset) (id : List UInt8) : Option Catalogue.Part :=
+  d.parts[(owner id (UInt64.ofNat d.parts.length)).toNat]?
+
+open Anndb.Catalogue in
+/-- **restart from a catalogue snapshot**: a node that builds its catalogue from the snapshot of
+`c` finds, for every dataset and id, the same owner partition as the node that took it -/
+theorem owner_survives_snapshot_restart (c : Cat) (h : C14.Wf c) (ds : Nat) (id : List UInt8) :
+    (find (restore [] (snapshot c)) ds).bind (ownerPart · id) = (find c ds).bind (ownerPart · id) := by
+  rw [C14.snapshot_restore_fresh c h]
+
+open Anndb.Catalogue in
+/-- **a node caught up by snapshot + log suffix and a node that replayed the whole log route
+alike** -/
+theorem owner_same_on_replayed_and_restored (pre suf : List Change) (ds : Nat) (id : List UInt8) :
+    (find (run (restore [] (snapshot (run [] pre))) suf) ds).bind (ownerPart · id)
+      = (find (run [] (pre ++ suf)) ds).bind (ownerPart · id) := by
+  rw [C14.snapshot_cut_fresh pre suf]
+
+/-- the snapshot in the code is the model's: metadata verbatim, no reordering (regenerated) -/
+theorem snapshot_is_verbatim_in_code : Generated.catalogueSnapshotVerbatim = true := by decide
+
+/-- why the order matters: the same two partitions listed in the other order give the id another
+owner -/
+theorem reordered_partitions_move_items :
+    let d : Catalogue.Dataset := { id := 1, dim := 2, space := 0, repl := 1, parts := [⟨7, [1]⟩, ⟨3, [1]⟩] }
+    let id : List UInt8 := [1, 0, 0, 0, 0, 0, 0, 0, 0, 0, 0, 0, 0, 0, 0, 0]
+    ownerPart d id ≠ ownerPart { d with parts := d.parts.reverse } id := by decide
 
 /-- non-vacuity: an id whose halves sum past 2^64 is still routed by the true sum
 (here lo = hi = 2^64 - 1, n = 3: (2^65 - 2) mod 3 = 0) -/
